@@ -37,6 +37,16 @@ for _h in ['k_tagtype_roundtrip_all_u32', 'k_tagtype_id_wrapper_commutes', 'k_ta
                          bound='all u32 values (two independent symbolic u32 for the equalities); loop-free, complete')
 HARNESSES['k_mbi_magic'] = dict(MB2, file='lib.rs', kind='full', functions=['MAGIC'], bound='constant')
 
+# ---------------------------------------------------------------------------
+# Bounded NATIVE stand-ins (real function executed natively on an enumerated
+# input family) for clauses neither verifier can reach.  Never counted as proved.
+# ---------------------------------------------------------------------------
+NATIVE = {
+    'n_find_header_window_limit': dict(crate='multiboot2-header', file='header.rs', props=['C13'],
+        bound='buffer lengths {8190, 8192, 8196, 8200, 8216, 8448} x magic positions 8150..=8210 x header lengths {16, 24, 200, 400} (1464 cases), zero-filled otherwise',
+        functions=['Multiboot2Header::find_header (8192-byte search window clause)']),
+}
+
 # V obligation -> K harnesses of the same contract (run for a counterexample
 # when the V proof fails)
 PAIRS = {
@@ -283,7 +293,7 @@ PROPS['C11']['v'] = [('u_hdr_core', ['Multiboot2Header::iter', 'Multiboot2Header
                                      'Multiboot2Header::arch', 'Multiboot2Header::length', 'Multiboot2Header::checksum', 'Multiboot2Header::calc_checksum',
                                      'Multiboot2BasicHeader::arch', 'TagIter::new', 'TagIter::next', 'walk_collect', 'HeaderTagHeader::payload_len',
                                      'Multiboot2BasicHeader::length', 'Multiboot2BasicHeader::header_magic', 'Multiboot2BasicHeader::checksum'])]
-PROPS['C13']['explanation'] = 'Bounded contract check: Kani explores the real find_header on every buffer length 0..=48 and every content (unwinding assertions on) against the oracle transcribed from the statement (first occurrence of the little-endian magic, alignment, truncation, returned sub-slice identical in address and length; total: any panic is a failure). The 8192-byte search-window clause is NOT decided: unwinding 8189 window iterations is out of reach of CBMC here, and Iterator::position cannot be specified in this Verus. An edit of the constant 8192 would not be noticed.'
+PROPS['C13']['explanation'] = 'Bounded contract check: Kani explores the real find_header on every buffer length 0..=48 and every content (unwinding assertions on) against the oracle transcribed from the statement (first occurrence of the little-endian magic, alignment, truncation, returned sub-slice identical in address and length; total: any panic is a failure). The 8192-byte search-window clause is out of reach of both verifiers (unwinding 8189 window iterations in CBMC; Iterator::position cannot be specified in this Verus): for that clause a BOUNDED NATIVE stand-in runs the real function on 1464 enumerated cases around the limit (labelled bounded-native, never counted as proved).'
 PROPS['C16']['explanation'] = 'Bounded contract check: Kani verifies new_boxed on the compiled code for 0..=3 content slices of 0..=5 symbolic bytes each (header size field = 8 + total, header || content without gaps, size_of_val = total rounded up to 8, 8-aligned allocation, Kani`s allocator model checks that Box drop deallocates with the allocation`s layout) and clone_dyn for every declared size 8..=17 (every padding residue): same declared size, same bytes. This contract is what C06/C07/C12 assume in Verus.'
 PROPS['C17']['explanation'] = 'Extent ("never looks past the declared size") follows from the proved dst_len contracts of C05 (Verus, all sizes). String semantics are core-library loops outside Verus: Kani checks parse_slice_as_string for EVERY byte string of length 0..=6 (all 256 values per position) against an independent UTF-8 validator and first-NUL oracle, and the three string-tag constructors / parsers for bounded lengths (every padding residue, NUL in padding or next tag => MissingNul).'
 
